@@ -8,6 +8,7 @@ TInit == l = 1
 TVisit == /\ Ev.cat \in Leaves
           /\ Ev.hooks = Chain(Ev.cat)                 \* own hook first, then the defaults up to the sink
           /\ Ev.entries = 1                           \* accept calls exactly one hook
+          /\ Ev.handed_other_object = 0               \* ... and every hook on the way to the sink is handed the node itself
           /\ Ev.views = <<Ev.cat>>                    \* view<K> yields the node for its own category only
           /\ Ev.sink = Dispatch(Ev.cat, {})           \* a visitor defining only the sinks receives it there
           \* accept entered again from inside the hook, nestdepth levels deep: the own hook at every level, no other hook, and
